@@ -410,8 +410,18 @@ def hash_on_accelerated_builds(ctx):
             c2.srcs = list(c.srcs) + ["alg/sha256_shani.c", "alg/sha256_sse2.c", "alg/crc32c_sse42.c", "util/warnp.c"] + \
                 ["cpusupport/cpusupport_x86_%s.c" % DETECT[f] for f in feats if f in DETECT]
             # a third of C01's cases, without the 2 MiB PBKDF2 outputs (those are about the block index, not the transform)
-            c2.gen = (lambda g: (lambda rng, tier, mult: [x for i, x in enumerate(y for y in g(rng, tier, mult) if not y[0].startswith("pbkdf2sum"))
-                                                         if i % 3 == 0 or x[0].startswith("big ")]))(c.gen)
+            def mk(g, isbigcrc):
+                def gen(rng, tier, mult):
+                    # `big sha1/md5` (one update of 2^29 + k bytes) is about the portable bit counters, not about an accelerated
+                    # transform: those cases stay with C01; `big sha256` (failing-input search) and `big crc` are kept
+                    cs = [x for i, x in enumerate(y for y in g(rng, tier, mult) if not y[0].startswith(("pbkdf2sum", "big sha1", "big md5")))
+                          if i % 3 == 0 or x[0].startswith("big ")]
+                    if isbigcrc and tier == "quick" and mult < 10 and not os.environ.get("VERIF_NO_BIG"):
+                        # one CRC32C update of 2^32 + k bytes through the SSE4.2 routine in every run (a few seconds)
+                        cs = _c01.big_cases(rng.fork("bigq"), "thorough", 1, ["crc"], 1 << 32) + cs
+                    return cs
+                return gen
+            c2.gen = mk(c.gen, c.name == "crc")
             c2.rule = "every third of C01's `%s` cases on the %s build: %s" % (c.name, name, c.rule[:200])
             out.append(c2)
     return out
